@@ -154,7 +154,8 @@ int main(int argc, char **argv) {
   if (mode == "rewrite") {
     int ident = atoi(argv[2]);
     for (int i = 3; i < argc; ++i) request(argv[i], ident);
-    bool err = interrogate_error_flag();   // forces load_latest through the public interface
+    bool err = interrogate_error_flag();   // the error flag as the very first query after the requests: it must already know
+    cerr << "ERRFIRST " << err << "\n";
     interrogate_number_of_types();
     err = interrogate_error_flag();
     cerr << "ERR " << err << "\n";
